@@ -6,17 +6,28 @@ bytes one call returned (`[]` = a zero-length read without error); the schedule 
 `io.EOF` (`End.eof`) or with another error (`End.fault`).  A read that returns data *together*
 with its error is the last chunk followed by the end marker.
 
-`splitLine fixed` is the split function: `fixed = true` is the repaired code (a buffer that ends
-in CR before EOF asks for more data), `fixed = false` the pinned code (kept to state the
-negation witness of defect D1).
+`splitLine fixed` is the line-cutting part of the split function: `fixed = true` is the repaired
+code (a buffer that ends in CR before EOF asks for more data), `fixed = false` the pinned code
+(kept to state the negation witness of defect D1).
+
+Repaired code only (`fixed = true`): before anything else the split function returns
+`bufio.ErrTooLong` when the pending data holds more than `maxLineSize = 65535` bytes before its
+first CR/LF, or more than 65535 bytes and no CR/LF at all — `lineTooLong`, whatever `atEOF` is —
+and the scanner's buffer is `maxLineSize + 2 = 65537` bytes (`bufSize true`), so that the scanner's
+own limit is out of reach (`Lemmas/Scan.lean`, `more_lt_bufSize`).  The pinned code has no such
+test and a 65536-byte buffer (`bufSize false = maxTokenSize`).
 
 `scan` mirrors `Scanner.Scan`: call the split function on the pending bytes with
-`atEOF = (an error, io.EOF included, has been seen)`; a token advances; "more" reads the next
-chunk — unless 65536 bytes are pending (`bufio.ErrTooLong`), or more than 100 consecutive
+`atEOF = (an error, io.EOF included, has been seen)`; an error of the split function ends the scan
+(the tokens delivered so far stay delivered); a token advances; "more" reads the next
+chunk — unless `bufSize` bytes are pending (`bufio.ErrTooLong`), or more than 100 consecutive
 empty reads were seen (`io.ErrNoProgress`).  A `Read` can never return more than the free space of
-the scanner's buffer (at most 65536 bytes in all); a chunk that would overrun it is
+the scanner's buffer (at most `bufSize` bytes in all); a chunk that would overrun it is
 `bufio.ErrBadReadCount`.  After a read error the pending bytes are still
-split with `atEOF = true` (so a final partial line *is* delivered) and the error is latched.
+split with `atEOF = true` (so a final partial line *is* delivered) and the error is latched:
+`Scanner.setErr` keeps the first error that is not `io.EOF`, so `bufio.ErrTooLong` from the split
+function replaces `io.EOF` but not the reader's own error, `io.ErrNoProgress` or
+`bufio.ErrBadReadCount`.
 -/
 
 namespace Astisub
@@ -61,6 +72,23 @@ inductive ScanErr where
 def maxTokenSize : Nat := 65536
 def maxEmptyReads : Nat := 100
 
+/-- `maxLineSize = bufio.MaxScanTokenSize - 1`: the longest line, terminator excluded, the repaired
+    split function accepts -/
+def maxLineSize : Nat := 65535
+
+/-- `i > maxLineSize || (i < 0 && len(data) > maxLineSize)` with `i = bytes.IndexAny(data, "\r\n")`:
+    `(breakEOL data).1` is `data[:i]` when `i ≥ 0` and the whole of `data` when `i < 0` -/
+def lineTooLong (data : List UInt8) : Bool := decide ((breakEOL data).1.length > maxLineSize)
+
+/-- the size the scanner's buffer can grow to: `scanner.Buffer(nil, maxLineSize+2)` in the repaired
+    code, the default `bufio.MaxScanTokenSize` in the pinned code -/
+def bufSize (fixed : Bool) : Nat := if fixed then maxLineSize + 2 else maxTokenSize
+
+/-- `Scanner.Err()` when the stream ended with `e` and the scanner met no error of its own -/
+def endErr : End → Option ScanErr
+  | .eof => none
+  | .fault => some .io
+
 theorem splitLine_tok_ne_nil {f d e adv t} (h : splitLine f d e = .tok adv t) : d ≠ [] := by
   intro hd; subst hd
   cases e <;> simp [splitLine, breakEOL] at h
@@ -77,13 +105,39 @@ decreasing_by
   | nil => contradiction
   | cons a as => simp; omega
 
+/-- tokens at end of input (`atEOF = true`) with the too-long test of the repaired split function:
+    the tokens delivered, and whether the split function ended the scan with `bufio.ErrTooLong`.
+    (`fixed = false`: no test — `drainL false p = (drain false p, false)`.) -/
+def drainL (fixed : Bool) (pending : List UInt8) : List (List UInt8) × Bool :=
+  if fixed && lineTooLong pending then ([], true) else
+  match h : splitLine fixed pending true with
+  | .tok adv t =>
+    if adv = 0 then ([], false) else
+    let r := drainL fixed (pending.drop adv)
+    (t :: r.1, r.2)
+  | _ => ([], false)
+termination_by pending.length
+decreasing_by
+  have := splitLine_tok_ne_nil h
+  cases pending with
+  | nil => contradiction
+  | cons a as => simp; omega
+
+/-- `Scanner.Err()` after the end of input was seen with `e` and the split function then did
+    (`long = true`) or did not return `bufio.ErrTooLong`: `setErr` lets it replace `io.EOF` only -/
+def finalErr (e : End) (long : Bool) : Option ScanErr :=
+  match e with
+  | .fault => some .io
+  | .eof => if long then some .tooLong else none
+
 /-- `Scanner.Scan` until it returns false: the tokens and `Scanner.Err()` (`none` = nil).
     `k` counts consecutive empty reads. -/
 def scan (fixed : Bool) (pending : List UInt8) (chunks : List (List UInt8)) (e : End) (k : Nat) :
     List (List UInt8) × Option ScanErr :=
   match chunks with
-  | [] => (drain fixed pending, match e with | .eof => none | .fault => some .io)
+  | [] => ((drainL fixed pending).1, finalErr e (drainL fixed pending).2)
   | c :: cs =>
+    if fixed && lineTooLong pending then ([], some .tooLong) else   -- the split function's own error
     match h : splitLine fixed pending false with
     | .stop => ([], none)   -- unreachable: `stop` needs atEOF
     | .tok adv t =>
@@ -91,11 +145,11 @@ def scan (fixed : Bool) (pending : List UInt8) (chunks : List (List UInt8)) (e :
       let r := scan fixed (pending.drop adv) (c :: cs) e 0
       (t :: r.1, r.2)
     | .more =>
-      if pending.length ≥ maxTokenSize then ([], some .tooLong)
+      if pending.length ≥ bufSize fixed then ([], some .tooLong)
       else if c.isEmpty then
-        (if k + 1 > maxEmptyReads then (drain fixed pending, some .noProgress)
+        (if k + 1 > maxEmptyReads then ((drainL fixed pending).1, some .noProgress)
          else scan fixed pending cs e (k + 1))
-      else if pending.length + c.length > maxTokenSize then (drain fixed pending, some .badRead)
+      else if pending.length + c.length > bufSize fixed then ((drainL fixed pending).1, some .badRead)
       else scan fixed (pending ++ c) cs e 0
 termination_by (chunks.length, pending.length)
 decreasing_by
@@ -110,6 +164,15 @@ decreasing_by
 /-- the whole-buffer semantics of a document: its lines (LF, CRLF and lone CR each end a line;
     a final unterminated line is a line; a trailing terminator adds none) -/
 def linesOf (bs : List UInt8) : List (List UInt8) := drain true bs
+
+/-- the byte-level semantics of the repaired scanner: the lines of `bs` before its first line of
+    more than `maxLineSize` bytes (terminator excluded) … -/
+def linesBefore (bs : List UInt8) : List (List UInt8) :=
+  (linesOf bs).takeWhile fun l => decide (l.length ≤ maxLineSize)
+
+/-- … and whether there is such a line -/
+def firstLong (bs : List UInt8) : Bool :=
+  (linesOf bs).any fun l => decide (l.length > maxLineSize)
 
 end Go
 end Astisub
